@@ -11,8 +11,9 @@
 From PNC Require Import Base.Util Model.FileStruct Model.Ioapi Proofs.IoapiProofs.
 Local Open Scope Z_scope.
 
-(* One step of ANY modelled operation — copy, subsetVariables, renameVariable, sliceDimensions, applyAlongDimensions, eval,
-   mask, stack, interpSigma: the full operation set named in the property — from ANY coherent file (any numbers of
+(* One step of ANY modelled operation — copy, subsetVariables, renameVariable (also onto an existing variable), sliceDimensions,
+   applyAlongDimensions, eval, mask, stack, interpSigma: the full operation set named in the property, plus deleting a variable
+   followed by updatemeta() — from ANY coherent file (any numbers of
    steps/layers/rows/columns/variables, gridded or boundary), inside region 0: if it completes, the result is coherent.
    PARTIAL only because of the known-defect regions (reducers along TSTEP, an empty subset) and region 3 (a standard
    variable missing from VAR-LIST, never produced by the library's constructors). *)
@@ -93,6 +94,17 @@ Example C10_zip_keeps_times :
                /\ coherentb g = false /\ nvars g = 0%nat /\ vardim g = 1%nat
                /\ tflag g = Some (1%nat, [(2000001, 0); (2000001, 20000)]).
 Proof. vm_compute. split; [reflexivity|]. eexists. repeat split; reflexivity. Qed.
+
+(* operations that REDUCE the number of listed variables without subsetVariables: renaming onto an existing variable,
+   deleting a variable + updatemeta(), eval(copyall) followed by renaming the new variable onto an input: NVARS, VAR-LIST,
+   the VAR dimension and TFLAG's second axis all shrink together *)
+Example C10_variable_count_reducing :
+  (exists g, istep f0 (IRename 0%nat 1%nat) = Ok g /\ coherentb g = true
+             /\ nvars g = 1%nat /\ vardim g = 1%nat /\ varlist g = [1%nat] /\ tflag g = Some (1%nat, [(2000001, 0); (2000001, 10000); (2000001, 20000)]))
+  /\ (exists g, istep f0 (IDelete 1%nat) = Ok g /\ coherentb g = true /\ nvars g = 1%nat /\ vardim g = 1%nat /\ varlist g = [0%nat])
+  /\ (exists g, irun f0 [IEval 3%nat 0%nat true; IRename 3%nat 1%nat; ISlice [(DT, false, [1%nat; 2%nat])]; ICopy] = Ok g
+                /\ coherentb g = true /\ nvars g = 2%nat /\ vardim g = 2%nat /\ varlist g = [0%nat; 1%nat]).
+Proof. vm_compute. repeat split; eexists; repeat split; reflexivity. Qed.
 
 (* ---- non-vacuity -------------------------------------------------------------------------------------- *)
 Definition iops_ex : list iop :=
